@@ -245,7 +245,7 @@ def run(ctx: Ctx) -> None:
 
     # ---- all schedules of multi-run plans with edits: Scheduler.tla + contract (determ) ---------------
     schedlab.suite(ctx, ["determ"], n_random_progs=ctx.pick(3, 24), n_sim=ctx.pick(40, 800),
-                   n_random_hist=ctx.pick(15, 400), tag="c02")
+                   n_random_hist=ctx.pick(15, 400), tag="c02", n_reuse=ctx.pick(40, 600))
 
 
 def replay(ctx: Ctx, rec: dict) -> None:
